@@ -3,6 +3,8 @@ import JanetModel.Spec.Template
 import JanetModel.Spec.Fixed
 import JanetModel.Bytecode.VMPasses
 import JanetModel.Bytecode.VMMovopt
+import JanetModel.Bytecode.VMCallPasses
+import JanetModel.Spec.CallSite
 
 /-!
 C15 - compiler specialisations of core functions preserve behaviour (theorems only).
@@ -367,6 +369,107 @@ theorem fixed_inline_eq_generic (hnil1 : ∀ v, P.eqv v P.nil = P.isNil v) (hnil
     ∃ code fuel, t.words.map decode = code.map some ∧ exec P code fuel (frameOf P t.slots args) w = some (m w) :=
   fixed_inline_eq_generic_bytecode P hnil1 hnil2 r (List.all_eq_true.mp fixed_rows_ok.1 r hr) t ht args m hm w
 
+
+/-! ### `apply`: `do_apply` against the bytecode `make_apply` assembles; calls with a splice -/
+
+/-- the structure of `do_apply` the model `Spec.emitApply` / `Spec.pushLeading` mirrors -/
+def applyShapeExpected : ApplyShape := ⟨1, 3, 3, .push3, 3, .push2, 2, .push, .pushArray, .tailcall, .call⟩
+
+/-- checkable on the regenerated tables: every row handled by `do_apply` has the arity guard `>= 2` and a template of kind `apply`
+    whose words decode to `Spec.applyCode`, a 6-slot vararg function of arity 1; and `do_apply` has the modelled structure -/
+def applyRowsOk : Bool :=
+  optimizers.all (fun r => r.handlerName != "do_apply" ||
+    (r.guard == .ge 2 && r.handler == .special "do_apply" &&
+      match templateOf r.tag with
+      | none => false
+      | some t => t.kind == .apply && decodesTo t.words applyCode && t.slots == 6 && t.vararg && t.arity == 1 && t.minArity == 1)) &&
+  (optimizers.filter (fun r => r.handlerName == "do_apply")).length == 1 &&
+  applyShape == applyShapeExpected
+
+/-- ★ obligation on the regenerated tables -/
+theorem apply_row_ok : applyRowsOk = true := by decide +kernel
+
+/-- the interpreter of a nested activation: its calls see the outer caller's captured slots (lent for the duration of the call) -/
+def lend {P : Prims} (X : CallPrims P) (vw : Nat → Option P.V) : CallPrims P := { X with call := fun g a _ => X.call g a vw }
+
+theorem applySem_lend {P : Prims} (X : CallPrims P) (vw : Nat → Option P.V) (f : P.V) (lead : List P.V) (last : P.V) :
+    applySem (lend X vw) f lead last (fun _ => none) = applySem X f lead last vw := by
+  unfold applySem lend
+  cases X.indexedView last <;> rfl
+
+/-- ★ `apply` compiled inline (tail position) computes what running the generic function's REAL bytecode computes, for every function
+    value, every list of leading arguments (none included), every last argument: one call of `f` on the leading values followed by the
+    elements of the last one - or the not-indexed error, raised before any call - in the same world.  `s` are the caller's slots; the
+    generic function runs in its own 6-slot frame on `(f ;lead last)`. -/
+theorem apply_inline_eq_generic (X : CallPrims P) (T : TupleLaws P) (cap : Nat → Bool) (r : OptRow) (hr : r ∈ optimizers)
+    (hh : r.handlerName = "do_apply") (t : CoreFun) (ht : templateOf r.tag = some t)
+    (s : List P.V) (f : Nat) (lead : List Nat) (last : Nat) (hlead : ∀ x ∈ lead, x < 256) (hl : last < 16777216) (hf : f < 16777216) (w : P.W) :
+    ∃ code fuel fuel', t.words.map decode = code.map some ∧
+      execX (lend X (view P cap s)) noCap code fuel (applyFrame0 T (getS P s f) (lead.map (getS P s) ++ [getS P s last])) w =
+        execX X cap (emitApply f lead last none) fuel' ⟨s, [], 0⟩ w ∧
+      execX X cap (emitApply f lead last none) fuel' ⟨s, [], 0⟩ w =
+        some (retOf (applySem X (getS P s f) (lead.map (getS P s)) (getS P s last) (view P cap s) w)) := by
+  have hall := apply_row_ok
+  unfold applyRowsOk at hall
+  simp only [Bool.and_eq_true] at hall
+  have hrow := List.all_eq_true.mp hall.1.1 r hr
+  simp only [hh, bne_self_eq_false, Bool.false_or, ht, Bool.and_eq_true, beq_iff_eq, decodesTo] at hrow
+  obtain ⟨_, ⟨⟨⟨⟨⟨_, hd⟩, _⟩, _⟩, _⟩, _⟩⟩ := hrow
+  obtain ⟨fuel, hg⟩ := apply_template_correct (lend X (view P cap s)) T (getS P s f) (lead.map (getS P s) ++ [getS P s last]) w
+  have hi := apply_inline_tail X cap (emitApply f lead last none) s 0 f lead last hlead hl hf (by simpa using HasAt.self _) w
+  refine ⟨applyCode, fuel, _, hd, ?_, hi⟩
+  rw [hg, hi]
+  simp only [List.reverse_append, List.reverse_cons, List.reverse_nil, List.nil_append, List.singleton_append, List.reverse_reverse,
+    applySem_lend]
+
+/-- ★ obligation on the regenerated structure of `janetc_pushslots` / the generic route of `janetc_call`: the branches `Spec.pushSlots` mirrors -/
+theorem pushslots_shape_ok :
+    pushSlotsBranches = [
+      ("slots[i].flags & JANET_SLOT_SPLICED", [.pushArray], 1),
+      ("i + 1 == count", [.push], 1),
+      ("slots[i + 1].flags & JANET_SLOT_SPLICED", [.push, .pushArray], 2),
+      ("i + 2 == count", [.push2], 2),
+      ("slots[i + 2].flags & JANET_SLOT_SPLICED", [.push2, .pushArray], 3),
+      ("", [.push3], 3)] ∧ genericCallOps = (.tailcall, .call) := by
+  decide +kernel
+
+/-- ★ a call with a splice, `(f a ;xs b)`, of ANY function - specialised ones included - is compiled by the generic route and performs
+    exactly one call of the function VALUE on the argument values with the spliced ones expanded in place (or raises the not-indexed
+    error of the first bad splice, before any call) -/
+theorem spliced_call_is_generic (X : CallPrims P) (cap : Nat → Bool) (head : Option Nat) (args : List SArg) (hsp : hasSpliced args = true)
+    (s : List P.V) (f : Nat) (hr : ∀ x ∈ args, x.reg < 256) (hf : f < 16777216) (w : P.W) :
+    selectSpecialised head args = none ∧
+    execX X cap (emitGenericCall f args none) ((pushSlots args).length + 1) ⟨s, [], 0⟩ w =
+      match argVals X s args with
+      | .error e => some (.error e, w)
+      | .ok vs => some (retOf (X.call (getS P s f) vs (view P cap s) w)) :=
+  ⟨splice_selects_generic head args hsp,
+   generic_call_tail X cap (emitGenericCall f args none) s 0 f args hr hf (by simpa using HasAt.self _) w⟩
+
+theorem argVals_apply_shape (X : CallPrims P) (s : List P.V) (lead : List Nat) (last : Nat) :
+    argVals X s (lead.map (fun r => (⟨r, false⟩ : SArg)) ++ [⟨last, true⟩]) =
+      (match X.indexedView (getS P s last) with
+        | none => (.error (X.notIndexed (getS P s last)) : Except P.E (List P.V))
+        | some l => .ok (lead.map (getS P s) ++ l)) := by
+  induction lead with
+  | nil =>
+    simp only [List.map_nil, List.nil_append, argVals, if_true]
+    cases X.indexedView (getS P s last) <;> simp
+  | cons x xs ih =>
+    simp only [List.map_cons, List.cons_append, argVals, Bool.false_eq_true, if_false]
+    rw [ih]
+    cases X.indexedView (getS P s last) <;> rfl
+
+/-- ★ `(apply f a.. xs)` compiled inline and the spliced call `(f a.. ;xs)` make the same call: same callee, same argument list, same
+    not-indexed error -/
+theorem apply_eq_splice (X : CallPrims P) (s : List P.V) (lead : List Nat) (last : Nat) (f : P.V) (vw : Nat → Option P.V) (w : P.W) :
+    (match argVals X s (lead.map (fun r => (⟨r, false⟩ : SArg)) ++ [⟨last, true⟩]) with
+      | .error e => (.error e, w)
+      | .ok vs => X.call f vs vw w) = applySem X f (lead.map (getS P s)) (getS P s last) vw w := by
+  rw [argVals_apply_shape]
+  unfold applySem
+  cases X.indexedView (getS P s last) <;> rfl
+
 /-! ### call-site selection: nil fast paths of `if` / `while` -/
 
 /-- ★ the four nil fast paths regenerated from specials.c name equality-family rows with the matching jump sense -/
@@ -411,5 +514,31 @@ theorem movopt_preserves_instance (D : Nat → Bool) (code code' : List Instr)
     (h : exec P code fuel ⟨s, pc⟩ w = some r) : exec P code' fuel ⟨s, pc⟩ w = some r :=
   movopt_preserves_tables P D code code' hreadsC
     (fun x hx => movopt_tables_sound_partial x.op (by cases x.op <;> decide) (hnogeti x hx)) hchg fuel s pc w r h
+
+/-! ### clean-up passes over the full interpreter -/
+
+open JanetModel.Bytecode.VMPasses in
+/-- ★ obligation on the REGENERATED retarget table of `janet_bytecode_remove_noops`: the opcodes whose operand the pass rewrites are
+    exactly the opcodes that jump in the VM model (`isJumpD` / `isJumpE`), in the right field - and those are exactly the opcodes
+    bytecode.c types as label operands (`JINT_L`, `JINT_SL`) -/
+theorem remove_noops_retargets_ok :
+    (∀ op ∈ Op.all, isJumpD op = removeNoopsRetargets.contains (op, Field.d)) ∧
+    (∀ op ∈ Op.all, isJumpE op = removeNoopsRetargets.contains (op, Field.e)) ∧
+    (∀ op ∈ Op.all, isJumpD op = (Op.itype op == .l) ∧ isJumpE op = (Op.itype op == .sl)) ∧
+    removeNoopsRetargets.length = 5 := by
+  decide +kernel
+
+open JanetModel.Bytecode.VMPasses in
+/-- ★ `movopt_preserves_x` instantiated with the regenerated tables over the full interpreter (calls, closures, upvalues, pushes,
+    constructors): code without `JOP_GET_INDEX` (all code once that opcode is no longer removable), `D` disjoint from the closure bitset -/
+theorem movopt_preserves_instance_x (X : CallPrims P) (D cap : Nat → Bool) (hcap : ∀ k, cap k = true → D k = false) (code code' : List Instr)
+    (hnogeti : ∀ x ∈ code, x.op ≠ .getIndex)
+    (hreadsC : ∀ x ∈ code, ∀ g ∈ movoptReads x.op, D (fieldVal x g) = false)
+    (hchg : ∀ (i : Nat) (x : Instr), code[i]? = some x →
+      code'[i]? = some x ∨ (code'[i]? = some ⟨.noop, 0⟩ ∧ ∃ f, movoptRemovable x.op = some f ∧ D (fieldVal x f) = true))
+    (fuel : Nat) (s a : List P.V) (pc : Nat) (w : P.W) (r : Except P.E P.V × P.W)
+    (h : execX X cap code fuel ⟨s, a, pc⟩ w = some r) : execX X cap code' fuel ⟨s, a, pc⟩ w = some r :=
+  movopt_preserves_tables_x X D cap hcap code code' hreadsC
+    (fun x hx => movopt_tables_sound_partial x.op (by cases x.op <;> decide) (hnogeti x hx)) hchg fuel s a pc w r h
 
 end JanetModel.Props.C15
